@@ -19,6 +19,8 @@
 #include <algorithm>
 #include <chrono>
 #include <functional>
+#include <atomic>
+#include <thread>
 #include <fcntl.h>
 #include <unistd.h>
 #include <sys/mman.h>
@@ -155,6 +157,10 @@ static inline bool read_case_file(const std::string& path, Case& c, std::string*
   return true;
 }
 
+// progress counter for the hang watchdog: bumped when a case starts and when it ends
+static std::atomic<uint64_t> g_case_ticks{0};
+static std::atomic<int> g_in_case{0};
+
 // free-form measured counts (oracles bump them), summed over shards by the runner
 static std::map<std::string, uint64_t> counters;
 
@@ -197,7 +203,9 @@ struct Ctx {
   // returns true if the case passed (or was skipped)
   bool exec(const Case& c) {
     journal.set(c, ++seq);
+    g_case_ticks++; g_in_case = 1;
     Result r = oracle(c);
+    g_in_case = 0; g_case_ticks++;
     journal.clear();
     evaluations++;
     per_campaign[c.campaign]++;
@@ -303,6 +311,16 @@ static inline int driver_main(int argc, char** argv, const Driver& drv) {
     return r.ok ? 0 : 1;
   }
   if (!journalpath.empty()) ctx.journal.open(journalpath.c_str());
+  // hang watchdog: one case that does not finish within 90 s is reported through the journal like a crash
+  std::thread([] {
+    uint64_t last = ~0ull; int stuck = 0;
+    for (;;) {
+      std::this_thread::sleep_for(std::chrono::seconds(1));
+      uint64_t now = g_case_ticks.load();
+      if (g_in_case.load() && now == last) { if (++stuck >= 90) { fprintf(stderr, "WATCHDOG: the in-flight case did not finish within 90 s — treated as a hang\n"); abort(); } }
+      else { stuck = 0; last = now; }
+    }
+  }).detach();
   if (!rcgen.empty()) {
 #ifdef VH_WITH_RC
     // rapidcheck front end: the same oracle, cases drawn (and on failure shrunk) by rapidcheck
@@ -310,7 +328,9 @@ static inline int driver_main(int argc, char** argv, const Driver& drv) {
     Case minimal; uint64_t generated = 0;
     bool ok = rcg::run(rcgen, [&](const Case& c) {
       ctx.journal.set(c, ++ctx.seq);
+      g_case_ticks++; g_in_case = 1;
       Result r = drv.run_case(ctx.prop, c);
+      g_in_case = 0; g_case_ticks++;
       ctx.journal.clear();
       ctx.evaluations++; ctx.per_campaign["RC-" + rcgen]++;
       if (r.skipped) { ctx.skipped++; return true; }
